@@ -377,7 +377,7 @@ class RawVoltageBackend(object):
 
         # Pad header if directio
         if directio:
-            f.write(bytearray(512 - (80 * header_lines % 512))) 
+            f.write(bytearray((-80 * header_lines) % 512))
 
         header_dict['PKTIDX'] += self.samples_per_block
 
